@@ -1,6 +1,7 @@
 """Fact base: merged view over the per-unit files written by cmpfacts, plus the
 AST/CFG helpers every rule uses (node walks, canonical printing, dominators,
 must-facts G1, depends-on closure G3, who-may-write G7)."""
+import re
 import json
 import os
 from collections import defaultdict
@@ -1046,6 +1047,14 @@ def inline_unnamed_helpers(fb, rounds=2):
             break
     fb.inlined_helpers = n
     return n
+
+
+_LOCAL_DECL = re.compile(r"^(i\d+\.)*l\d+:")
+
+
+def is_local_decl(d):
+    """decl key of a local variable (`l3:name`), also one that came in with an inlined helper (`i2.l3:name`)"""
+    return isinstance(d, str) and bool(_LOCAL_DECL.match(d))
 
 
 def load(root="/repo", config="default", extra_flags=()):
